@@ -171,6 +171,14 @@ func verifHarness_C09_roundTrip() {
 		return
 	}
 	vAssert(vWireEqual(m, m2, raw1), "every-field-on-the-wire-comes-back-equal")
+	// the way the library itself decodes: into a blank value, told the version from outside
+	// (responses: Broker.sendAndReceive; requests: decodeRequest/allocateBody)
+	if b.hasVersion && ver < b.maxVersion { // maxVersion is one above the highest version gate in the source
+		mb := b.mkBlank()
+		if versionedDecode(raw1, mb, ver) == nil {
+			vAssert(mb.version() == ver, "decoded-value-knows-its-version")
+		}
+	}
 	raw2, err := encode(m2, nil)
 	vAssert(err == nil, "re-encode-succeeds")
 	if err != nil {
